@@ -360,6 +360,8 @@ class Interp:
                 r = self.class_attr(cs, name, None)
                 if r is not None:
                     return r
+            if name in getattr(cs, 'nested', {}):
+                return cs.nested[name]
         return self.global_lookup(name, fr.module, node)
 
     def global_lookup(self, name, module, node=None):
@@ -1360,6 +1362,8 @@ class Interp:
                 if isinstance(v, FuncRef) and isinstance(v.node, ast.Lambda) and inst is not None:
                     return Bound(inst, v)
                 return v
+            if a in getattr(c, 'nested', {}) and a not in c.methods and a not in c.class_attrs:
+                return c.nested[a]
             if a in c.methods:
                 fn = c.methods[a]
                 f = FuncRef(fn, c.module, c)
@@ -1474,10 +1478,7 @@ class Interp:
             key = self.dkey(k)
             d.d[key] = self.ev(n.value, f2)
             d.keyobj[key] = k
-        try:
-            self.comp(n.generators, 0, self.comp_frame(fr), add)
-        except Fail:
-            return Term('dictcomp', Sym('unknown'))
+        self.comp(n.generators, 0, self.comp_frame(fr), add)
         return d
 
     def comp(self, gens, i, fr, emit):
@@ -1485,7 +1486,8 @@ class Interp:
             emit(fr)
             return
         g = gens[i]
-        it = self.ev(g.iter, fr)
+        # the first iterable is evaluated in the enclosing scope (in a class body: with the names of the class body in view)
+        it = self.ev(g.iter, fr.parent if i == 0 and getattr(fr, 'comp', False) and fr.parent is not None else fr)
         for x in self.pull_iter(it, g.iter):
             self.assign(g.target, x, fr)
             if all(self.truth(self.ev(c, fr), c) for c in g.ifs):
